@@ -3,7 +3,6 @@ package deb // import "pault.ag/go/debian/deb"
 import (
 	"fmt"
 	"io"
-	"strings"
 
 	"golang.org/x/crypto/openpgp"
 )
@@ -25,22 +24,14 @@ func (deb *Deb) CheckDebsig(validKeys openpgp.EntityList, sigType string) (signe
 		return nil, fmt.Errorf("archive does not contain a debian-binary flag")
 	}
 
-	var control, data *ArEntry
-	for _, member := range deb.ArContent {
-		if strings.HasPrefix(member.Name, "control.") {
-			control = member
-			if data != nil {
-				break
-			}
-		} else if strings.HasPrefix(member.Name, "data.") {
-			data = member
-			if control != nil {
-				break
-			}
-		}
+	// These have to be the very members Load read the package from.
+	control, err := findDeb2Member(deb.ArContent, "control.")
+	if err != nil {
+		return nil, fmt.Errorf("unable to find signed data: %v", err)
 	}
-	if control == nil || data == nil {
-		return nil, fmt.Errorf("unable to find signed data")
+	data, err := findDeb2Member(deb.ArContent, "data.")
+	if err != nil {
+		return nil, fmt.Errorf("unable to find signed data: %v", err)
 	}
 	binaryFlag.Data.Seek(0, 0)
 	control.Data.Seek(0, 0)
